@@ -23,6 +23,18 @@ var charNames = map[string]string{
 	"EACUTE": "é", "CJK": "日", "COMB": "é", "BAD": "\xff", "NBSP": " ",
 }
 
+// seedChars instantiates the character classes PLAIN (non-special ASCII) and MB (a multi-byte rune)
+// from the run's seed, so that different seeds exercise different concrete bytes.
+func seedChars(seed int64) {
+	plain := []string{"z", "~", "!", "*", "+", "-", ".", "/", ":", ";", "=", "?", "@", "[", "]", "^", "_", "|", "(", ")", ",", "$", "7", " q", "\x7f", "\x01"}
+	mb := []string{"ü", "ß", "Ω", "ж", "中", "한", "😀", "\u00a0", "ñ", "‰", "\u2028", "е́"}
+	if seed < 0 {
+		seed = -seed
+	}
+	charNames["PLAIN"] = plain[int(seed)%len(plain)]
+	charNames["MB"] = mb[int(seed/7)%len(mb)]
+}
+
 func decodeChars(ss []string) string {
 	var b strings.Builder
 	for _, s := range ss {
@@ -50,6 +62,7 @@ type absVal struct {
 	Name string             `json:"name"`
 	Kind string             `json:"kind"`
 	Go   string             `json:"go"`
+	FRaw json.RawMessage    `json:"f"`
 	Ps   []string           `json:"ps"`
 }
 
@@ -104,7 +117,30 @@ func materialize(a absVal, env *runEnv) interface{} {
 	case "str":
 		return decodeChars(a.S)
 	case "html":
+		if a.Go == "htmler" {
+			return htmler{decodeChars(a.S)}
+		}
 		return template.HTML(decodeChars(a.S))
+	case "rec":
+		var f map[string]absVal
+		if len(a.FRaw) > 0 && a.FRaw[0] == '{' {
+			json.Unmarshal(a.FRaw, &f)
+		}
+		r := vRec{}
+		for k, v := range f {
+			gv := materialize(v, env)
+			switch k {
+			case "Name":
+				r.Name, _ = gv.(string)
+			case "Html":
+				r.Html, _ = gv.(template.HTML)
+			case "Any":
+				r.Any = gv
+			default:
+				panic("harness: vRec has no field " + k)
+			}
+		}
+		return r
 	case "htmler":
 		return htmler{decodeChars(a.S)}
 	case "flt":
@@ -176,6 +212,13 @@ func materialize(a absVal, env *runEnv) interface{} {
 type vStruct struct {
 	Name string
 	N    int
+}
+
+// vRec is the Go struct behind the model's "rec" values.
+type vRec struct {
+	Name string
+	Html template.HTML
+	Any  interface{}
 }
 
 var opaqueKinds = map[string]func() interface{}{
